@@ -7,6 +7,8 @@ import BezierVerif.Props.Roots
 import BezierVerif.Props.C02
 import BezierVerif.Lemmas.SegLemmas
 import BezierVerif.Tactics
+import Mathlib.Data.List.Perm.Basic
+import Mathlib.Data.List.Sort
 
 set_option linter.unusedSectionVars false
 set_option linter.unusedVariables false
@@ -349,6 +351,144 @@ theorem pinned_repeated_segment_counterexample :
     ∧ splitAtPointsDict [Seg.quad (⟨0, 0⟩ : Pt ℚ) ⟨2, 4⟩ ⟨4, 0⟩, Seg.quad ⟨0, 0⟩ ⟨2, 4⟩ ⟨4, 0⟩] [[1 / 2], [1 / 2]]
       = [Seg.quad ⟨0, 0⟩ ⟨1, 2⟩ ⟨2, 2⟩, Seg.quad ⟨2, 2⟩ ⟨3, 2⟩ ⟨4, 0⟩, Seg.quad ⟨0, 0⟩ ⟨1, 2⟩ ⟨2, 2⟩, Seg.quad ⟨2, 2⟩ ⟨3, 2⟩ ⟨4, 0⟩] := by
   decide +kernel
+theorem insertSorted_perm (x : K) (l : List K) : (insertSorted x l).Perm (x :: l) := by
+  induction l with
+  | nil => simp [insertSorted]
+  | cons y ys ih =>
+    unfold insertSorted
+    split_ifs
+    · exact List.Perm.refl _
+    · exact (List.Perm.cons y ih).trans (List.Perm.swap x y ys)
+
+theorem sort_perm (l : List K) : (sort l).Perm l := by
+  induction l with
+  | nil => exact List.Perm.refl _
+  | cons x xs ih => exact (insertSorted_perm x (sort xs)).trans (List.Perm.cons x ih)
+
+/-- every element k times in a row -/
+def stutter (k : Nat) (l : List K) : List K := l.flatMap (List.replicate k)
+
+theorem cutSeg_replicate (seg : Seg K) (t : K) (k : Nat) (rest : List K) :
+    cutSeg seg (List.replicate (k + 1) t ++ rest) = cutSeg seg (t :: rest) := by
+  induction k with
+  | zero => rfl
+  | succ k ih =>
+    have : List.replicate (k + 1 + 1) t ++ rest = t :: t :: (List.replicate k t ++ rest) := by
+      simp [List.replicate_succ]
+    rw [this, cutSeg_cons_dup]
+    have : t :: (List.replicate k t ++ rest) = List.replicate (k + 1) t ++ rest := by simp [List.replicate_succ]
+    rw [this, ih]
+
+theorem stutter_map (k : Nat) (f : K → K) (l : List K) : (stutter k l).map f = stutter k (l.map f) := by
+  unfold stutter
+  induction l with
+  | nil => rfl
+  | cons x xs ih => simp [List.flatMap_cons, ih]
+
+/-- **cutting at a list in which every parameter is repeated is cutting at the list** -/
+theorem cutSeg_stutter_aux (k : Nat) : ∀ (n : Nat) (l : List K) (seg : Seg K), l.length = n →
+    cutSeg seg (stutter (k + 1) l) = cutSeg seg l := by
+  intro n
+  induction n with
+  | zero =>
+    intro l seg hl
+    rw [List.length_eq_zero_iff.mp hl]; rfl
+  | succ n ih =>
+    intro l seg hl
+    cases l with
+    | nil => simp at hl
+    | cons t ts =>
+      have hts : ts.length = n := by simpa using hl
+      have hs : stutter (k + 1) (t :: ts) = List.replicate (k + 1) t ++ stutter (k + 1) ts := by
+        simp [stutter, List.flatMap_cons]
+      rw [hs, cutSeg_replicate]
+      by_cases h : t < (1 : K) / 100000000
+      · rw [cutSeg, if_pos h]
+        conv_rhs => rw [cutSeg, if_pos h]
+        exact ih ts seg hts
+      · rw [cutSeg, if_neg h]
+        conv_rhs => rw [cutSeg, if_neg h]
+        congr 1
+        rw [stutter_map]
+        exact ih _ _ (by simpa using hts)
+
+theorem cutSeg_stutter (k : Nat) (l : List K) (seg : Seg K) : cutSeg seg (stutter (k + 1) l) = cutSeg seg l :=
+  cutSeg_stutter_aux k l.length l seg rfl
+
+theorem stutter_sorted (k : Nat) (l : List K) (h : l.Pairwise (· ≤ ·)) : (stutter k l).Pairwise (· ≤ ·) := by
+  unfold stutter
+  induction l with
+  | nil => simp
+  | cons x xs ih =>
+    rw [List.pairwise_cons] at h
+    simp only [List.flatMap_cons]
+    rw [List.pairwise_append]
+    refine ⟨?_, ih h.2, ?_⟩
+    · rw [List.pairwise_replicate]; right; exact le_refl _
+    · intro a ha b hb
+      rw [List.mem_replicate] at ha
+      rw [List.mem_flatMap] at hb
+      obtain ⟨y, hy, hb⟩ := hb
+      rw [List.mem_replicate] at hb
+      rw [ha.2, hb.2]; exact h.1 y hy
+
+theorem stutter_perm (k : Nat) (l1 l2 : List K) (h : l1.Perm l2) : (stutter k l1).Perm (stutter k l2) := by
+  unfold stutter; exact h.flatMap_right _
+
+theorem count_stutter (k : Nat) (a : K) (l : List K) : (stutter k l).count a = k * l.count a := by
+  unfold stutter
+  induction l with
+  | nil => simp
+  | cons x xs ih =>
+    simp only [List.flatMap_cons, List.count_append, ih, List.count_replicate, List.count_cons]
+    by_cases h : x = a
+    · subst h; simp; ring
+    · have h' : ¬ (x == a) = true := by simpa using h
+      simp [h']
+
+theorem count_copies (k : Nat) (a : K) (l : List K) : ((List.replicate k l).flatten).count a = k * l.count a := by
+  induction k with
+  | zero => simp
+  | succ k ih => rw [List.replicate_succ, List.flatten_cons, List.count_append, ih]; ring
+
+/-- the sorted list of `k` copies of a list is the sorted list with every element `k` times in a row -/
+theorem sort_copies (k : Nat) (l : List K) : sort ((List.replicate k l).flatten) = stutter k (sort l) := by
+  apply List.Perm.eq_of_pairwise (le := (· ≤ ·)) (fun a b _ _ hab hba => le_antisymm hab hba) (sort_sorted _) (stutter_sorted k _ (sort_sorted _))
+  refine (sort_perm _).trans ?_
+  rw [List.perm_iff_count]
+  intro a
+  rw [count_copies, count_stutter, (sort_perm l).count_eq]
+
+theorem cutsFor_map (f : Seg K → List K) (segs : List (Seg K)) (s : Seg K) :
+    cutsFor segs (segs.map f) s = (List.replicate (segs.count s) (f s)).flatten := by
+  unfold cutsFor
+  induction segs with
+  | nil => simp
+  | cons x xs ih =>
+    simp only [List.map_cons, List.zip_cons_cons, List.filter_cons, List.count_cons]
+    by_cases h : x = s
+    · subst h
+      simp only [decide_true, if_true, List.flatMap_cons, ih, beq_self_eq_true]
+      rw [List.replicate_succ', List.flatten_append]
+      simp only [List.flatten_cons, List.flatten_nil, List.append_nil]
+      clear ih
+      induction xs.count x with
+      | zero => simp
+      | succ n ihn => rw [List.replicate_succ, List.flatten_cons, List.append_assoc, ← ihn]
+    · have h' : ¬ (x == s) = true := by simpa using h
+      simp only [h, decide_false, Bool.false_eq_true, if_false, h', ih, Nat.add_zero]
+
+/-- **`addExtremes` on ANY path — repeated segments included — is the positional model**: every occurrence of a segment is cut at the
+    sorted extremes of that segment, so the C03 theorems about `addExtremes` (monotone pieces, retracing, chain) hold for every path -/
+theorem addExtremesDict_eq (sqrt : K → K) (segs : List (Seg K)) : addExtremesDict sqrt segs = addExtremes sqrt segs := by
+  unfold addExtremesDict addExtremes splitAtPointsDict splitAtPoints
+  congr 1
+  rw [List.zipWith_map_right, List.zipWith_self]
+  apply List.map_congr_left
+  intro s hs
+  rw [cutsFor_map, sort_copies]
+  obtain ⟨n, hn⟩ : ∃ n, segs.count s = n + 1 := ⟨segs.count s - 1, by have := List.count_pos_iff.mpr hs; omega⟩
+  rw [hn, cutSeg_stutter]
 end dict
 
 end C03
